@@ -16,7 +16,7 @@ with open('/verif/known_findings.jsonl', 'a') as out:
             continue
         if s not in WHAT:
             print("UNLISTED", s, f); continue
-        dst = f'known/{pid}-' + s.replace(':', '-').replace('_', '-').replace('/', '-')[:80] + '.json'
+        dst = f'known/{pid}-' + s.replace(':', '-').replace('_', '-').replace('/', '-').replace(' ', '-').replace('+', '-')[:80] + '.json'
         shutil.copy(f, '/verif/' + dst)
         out.write(json.dumps({"status": "open", "property": pid, "signature": s, "what": WHAT[s], "replay": dst}) + "\n")
         print("added", s, n)
